@@ -288,6 +288,15 @@ func (g *Gen) expectAt(h uint64) *Expect {
 // (revise+prove, form+revise, form+prove, repeated v1/v2 revisions, revise+renew, chained ephemeral payments).
 // It is the default OnBlock of every generated chain.
 func SameBlockScenarios(g *Gen, b *Builder) {
+	if ver := g.W.SweepNext; ver != 0 {
+		g.W.SweepNext = 0
+		if ver == 2 {
+			b.AfterV1(func() { b.Sweep(2) })
+		} else {
+			b.Sweep(1)
+		}
+		return
+	}
 	switch rapid.IntRange(0, 14).Draw(g.T, "scenario") {
 	case 0: // revise then prove a v1 contract inside one block (possible when the window opens at this height)
 		b.V1ReviseThenProve()
